@@ -6,3 +6,4 @@ INVARIANT SeedsWellFormed
 INVARIANT LawDropStart
 INVARIANT LawDangling
 CHECK_DEADLOCK FALSE
+INVARIANT LawCollision
